@@ -57,7 +57,7 @@ func ReplayGen(in string, w *ev.Writer) error {
 			return err
 		}
 		n++
-		m := ev.M{"vec": v.Vec, "ok": false, "hash": "", "level": -1, "tree": "", "panic": ""}
+		m := ev.M{"vec": v.Vec, "ok": false, "hash": "", "hash2": "", "level": -1, "tree": "", "panic": "", "rt": []string{}}
 		func() {
 			defer func() {
 				if r := recover(); r != nil {
@@ -78,9 +78,44 @@ func ReplayGen(in string, w *ev.Writer) error {
 			if h, err := roots[0].HashString(); err == nil {
 				m["hash"] = h
 			}
+			// asked a second way: a caching hasher, twice
+			hs := boc.NewHasher()
+			m["hash2"] = ""
+			if h1, err := hs.Hash(roots[0]); err == nil {
+				if h2, err := hs.HashString(roots[0]); err == nil && h2 == hex.EncodeToString(h1) {
+					m["hash2"] = h2
+				} else {
+					m["hash2"] = "unstable"
+				}
+			}
 			m["level"] = roots[0].Level()
 			budget := 10000
-			m["tree"] = TreeStr(roots[0], &budget)
+			tree := TreeStr(roots[0], &budget)
+			m["tree"] = tree
+			// round trip of the parsed DAG (exotic cells of every mask cannot be built in memory: this is where they are
+			// serialised): every option combination must parse back to the same tree
+			rt := []string{}
+			if m["hash"] != "" {
+				for combo := 0; combo < 8; combo++ {
+					b2, err := roots[0].ToBocCustom(combo&1 != 0, combo&2 != 0, combo&4 != 0, 0)
+					if err != nil {
+						rt = append(rt, fmt.Sprintf("%d:serialise: %v", combo, err))
+						continue
+					}
+					back, err := boc.DeserializeBoc(b2)
+					if err != nil || len(back) != 1 {
+						rt = append(rt, fmt.Sprintf("%d:own output does not parse: %v", combo, err))
+						continue
+					}
+					budget = 10000
+					if t2 := TreeStr(back[0], &budget); t2 != tree {
+						rt = append(rt, fmt.Sprintf("%d:tree %s", combo, t2))
+					} else if h, _ := back[0].HashString(); h != m["hash"] {
+						rt = append(rt, fmt.Sprintf("%d:hash %s", combo, h))
+					}
+				}
+			}
+			m["rt"] = rt
 		}()
 		w.Emit(m)
 	}
